@@ -264,7 +264,13 @@ func (in *Interp) conv(tDst, tSrc types.Type, x value) value {
 			}
 			cs, ok := concreteStr(x)
 			if !ok {
-				panic(engineErr("[]rune of symbolic string"))
+				out := []value{}
+				for i := 0; i < len(s.b); {
+					r, n := in.decodeRuneSym(s.b[i:])
+					out = append(out, r)
+					i += n
+				}
+				return out
 			}
 			var out []value
 			for _, r := range cs {
@@ -295,7 +301,7 @@ func (in *Interp) conv(tDst, tSrc types.Type, x value) value {
 				return x
 			case *Term: // rune/int -> string
 				if !xv.IsConst() {
-					panic(engineErr("string(symbolic rune)"))
+					return &SymStr{b: in.encodeRuneSym(tc.Resize(xv, 32, true))}
 				}
 				_, signed, _ := isInt(us)
 				v := int64(xv.c)
@@ -319,14 +325,23 @@ func (in *Interp) conv(tDst, tSrc types.Type, x value) value {
 					return out
 				}
 				rs := make([]rune, len(xv))
+				allConst := true
 				for i, r := range xv {
 					t := r.(*Term)
 					if !t.IsConst() {
-						panic(engineErr("string([]rune) symbolic"))
+						allConst = false
+						break
 					}
 					rs[i] = rune(signExt(t.c, 32))
 				}
-				return string(rs)
+				if allConst {
+					return string(rs)
+				}
+				out := &SymStr{}
+				for _, r := range xv {
+					out.b = append(out.b, in.encodeRuneSym(r.(*Term))...)
+				}
+				return out
 			}
 		}
 		if w, signedDst, ok := intWidth(ud); ok && w > 0 {
@@ -851,3 +866,36 @@ func (in *Interp) opaqueMethod(o *Opaque, meth *types.Func) value {
 }
 
 var _ = fmt.Sprint
+
+// encodeRuneSym is utf8.AppendRune on a symbolic rune: forks on the encoding length.
+func (in *Interp) encodeRuneSym(r *Term) []*Term {
+	tc := in.tc
+	if r.IsConst() {
+		var out []*Term
+		for _, b := range []byte(string(rune(signExt(r.c, 32)))) {
+			out = append(out, tc.Const(8, uint64(b)))
+		}
+		return out
+	}
+	c := func(v uint64) *Term { return tc.Const(32, v) }
+	b8 := func(t *Term) *Term { return tc.Extract(t, 7, 0) }
+	shr := func(t *Term, n uint64) *Term { return tc.binRaw(OpLshr, t, c(n)) }
+	or := func(k uint64, t *Term) *Term { return b8(tc.binRaw(OpBor, c(k), t)) }
+	low6 := func(t *Term) *Term { return tc.binRaw(OpBand, t, c(0x3F)) }
+	rerr := []*Term{tc.Const(8, 0xEF), tc.Const(8, 0xBF), tc.Const(8, 0xBD)}
+	if in.branch(tc.Ult(r, c(0x80)), "utf8enc 1") {
+		return []*Term{b8(r)}
+	}
+	if in.branch(tc.Ult(r, c(0x800)), "utf8enc 2") {
+		return []*Term{or(0xC0, shr(r, 6)), or(0x80, low6(r))}
+	}
+	// surrogates and out-of-range (incl. negative = huge unsigned) encode RuneError
+	bad := tc.Or(tc.And(tc.Ule(c(0xD800), r), tc.Ule(r, c(0xDFFF))), tc.Ult(c(0x10FFFF), r))
+	if in.branch(bad, "utf8enc bad") {
+		return rerr
+	}
+	if in.branch(tc.Ult(r, c(0x10000)), "utf8enc 3") {
+		return []*Term{or(0xE0, shr(r, 12)), or(0x80, low6(shr(r, 6))), or(0x80, low6(r))}
+	}
+	return []*Term{or(0xF0, shr(r, 18)), or(0x80, low6(shr(r, 12))), or(0x80, low6(shr(r, 6))), or(0x80, low6(r))}
+}
